@@ -28,7 +28,15 @@ func innermostNbio(stack []string) string {
 		fn := m[1]
 		if strings.HasPrefix(fn, "github.com/lesismal/nbio") {
 			fn = strings.TrimPrefix(fn, "github.com/lesismal/")
-			return reClosure.ReplaceAllString(fn, "")
+			fn = reClosure.ReplaceAllString(fn, "")
+			// a closure of a function inlined into another one is printed as
+			// pkg.(*T).Outer.(*T).inner.func1: attribute it to the inner function
+			if i := strings.LastIndex(fn, ".(*"); i > 0 {
+				if j := strings.Index(fn, ".("); j >= 0 && j < i {
+					fn = fn[:j] + fn[i:]
+				}
+			}
+			return fn
 		}
 	}
 	return ""
